@@ -151,7 +151,8 @@ def sampled_cases(r, n):
     cases = []
     digs = "0123456789abcdef"
     for i in range(n):
-        bits = r.choice([1, 7, 8, 9, 31, 32, 33, 63, 64, 65, 127, 128, 255, 256, 511, 512])
+        # boundary widths, and every other width up to 520 bits (byte counts that are no multiple of 4 above the documented 20-byte list included)
+        bits = r.choice([1, 7, 8, 9, 31, 32, 33, 63, 64, 65, 127, 128, 255, 256, 511, 512]) if r.random() < 0.4 else r.randrange(1, 521)
         v = r.getrandbits(bits) | (1 << (bits - 1))
         base, pfx = r.choice([(10, ""), (16, "0x"), (2, "0b"), (8, "0o")])
         body = ""
